@@ -154,6 +154,12 @@ def check_one(chk, rep, repo, cls, eff):
             + [g for g, _ in e.guards] for t in subterms(top))]
         if i is not None and stores and all(e.target == ("idx", arr, i) and not e.aug for e in stores) and not reads:
             own_cell.add(arr)
+    if not scans and any(arr not in own_cell for arr in scratch):
+        from ..core import AnalysisError
+        arr0 = next(a for a in scratch if a not in own_cell)
+        raise AnalysisError(f"{w.entry.qual}: buffer '{show(arr0)[:60]}' is kept across the queries of a batch by a scan the "
+                            "k-nearest rules do not recognise (no insertion scan found): whether a query can see what an "
+                            "earlier query left in it cannot be decided for this form")
     for arr, ev in scratch.items():
         rep.ev("NI-scratch", ev, arr in covered or arr in own_cell,
                f"array '{show(arr)}' outlives one sample and is neither reset per sample nor read under a validity test")
